@@ -179,6 +179,15 @@ class PhaseGen:
             if main_break:
                 lines.append("    if count > 2:")
                 lines.append("        break")
+        if r.random() < 0.4:
+            # comment-only lines at any indentation (also dedented to column 0 inside a block) never end a block
+            first = lines.index("def press():") + 1
+            out = lines[:first]
+            for line in lines[first:]:
+                if r.random() < 0.15:
+                    out.append(r.choice(["", "", "    ", "        "]) + r.choice(["# note", "#", "# led.on()", "#while True:"]))
+                out.append(line)
+            lines = out
         passes = r.choice([0, 1, 2, 3, 5])
         world = {"passes": passes, "gaps": [r.choice([0, 0, 1000, 250000]) for _ in range(max(1, passes))]}
         if r.random() < 0.5:
